@@ -553,7 +553,7 @@ class Gen:
                         dd = shlex.split(sj[3:].strip())
                         if dd[0] == 'endfn':
                             break
-                        if dd[0] in ('loop', 'at', 'start', 'sigattr', 'tail', 'closure', 'anf', 'end'):
+                        if dd[0] in ('loop', 'at', 'start', 'sigattr', 'tail', 'closure', 'anf', 'end', 'rename', 'end-of-loop'):
                             sections.append((dd[0], dd[1:], [], j + 1))
                         else:
                             raise GenError('%s:%d unexpected directive %s inside fn' % (tmpl_path, j + 1, dd[0]))
@@ -721,6 +721,12 @@ class Gen:
         body2 = normalise_code(body, fired)
         body2 = n6_closure_patterns(body2, fired)
         body2 = n9_step_by(body2, fired)
+        for kind, args, slines, tl in sections:
+            if kind == 'rename':
+                # N8 (flattening): two modules of the crate use the same name for different items; the one of this
+                # function is renamed consistently inside the function text
+                body2 = code_sub(body2, r'(?<![A-Za-z0-9_])' + re.escape(args[0]) + r'(?![A-Za-z0-9_])', args[1], fired, 'N8')
+                sig2 = code_sub(sig2, r'(?<![A-Za-z0-9_])' + re.escape(args[0]) + r'(?![A-Za-z0-9_])', args[1], fired, 'N8')
         if any(kind == 'anf' for kind, _, _, _ in sections):
             body2 = n20_anf_tail_chain(body2, fired, qname)
         body2 = n17_ref_into_iter(body2, fired)
@@ -748,6 +754,16 @@ class Gen:
                 sigattrs = slines
             elif kind == 'start':
                 inserts.setdefault(1, []).extend(slines)
+            elif kind == 'end-of-loop':
+                n = int(args[0])
+                if n > len(loops):
+                    info.lost.append('loop %d (function has %d loops)' % (n, len(loops)))
+                    continue
+                # closing brace of the loop body: match the `{` that ends the header line
+                start_off = sum(len(l) + 1 for l in bm_lines[:loops[n - 1]]) + bm_lines[loops[n - 1]].rstrip().rfind('{')
+                close_off = match_close(bm, start_off)
+                close_line = bm.count('\n', 0, close_off)
+                inserts.setdefault(close_line, []).extend(slines)
             elif kind == 'end':
                 # just before the closing brace of the body (bodies that end with a statement)
                 inserts.setdefault(len(body_lines) - 1, []).extend(slines)
